@@ -22,17 +22,17 @@ def bounds(lean_open):
     B = lambda k_hs, k_del, k_acc=None, coop_extra=None, note=None: dict(
         k_hs=k_hs, k_del=k_del, k_acc=k_acc, coop_extra=coop_extra, stable=True, note=note)
     if name == "pipevalid":
-        return B(1, 2)
+        return B(1, 2, 1)
     if name == "pipeready":
-        return B(1, 1)
+        return B(1, 1, 2)
     if name == "wire":
-        return B(1, 1)
+        return B(1, 1, 1)
     if name == "buffer_vr":
         return B(1, 2)
     if name == "syncfifo":
-        return B(1, 2)
+        return B(1, 2, 2)
     if name == "syncfifo_buffered":
-        return B(1, 3)
+        return B(1, 3, 2)
     if name in ("up", "strideup"):
         return B(1, ps[0] + 1, 1)                       # upConv_progress / upConv_no_livelock (r + 1)
     if name in ("down", "stridedown"):
@@ -48,7 +48,7 @@ def bounds(lean_open):
     if name == "delay":
         return B(1, ps[0] + 1, 1)
     if name == "cast":
-        return B(1, 1)
+        return B(1, 1, 1)
     if name == "bufferized_up":
         return B(1, ps[0] + 3, 1)
     if name == "chain3":
@@ -145,45 +145,65 @@ def mk_chain3(depth, layout, tokens=None):
 PK = dict(k_arb=(2, 2), k_disp=1, k_fifo=(1, None), k_fifo_buf=(1, None), k_pk=(1, 1), k_dpk=(1, None))
 
 
+# header tables: name -> (byte, offset, width)
+H1 = {"a": (0, 0, 8)}
+H2 = {"a": (0, 0, 16)}
+H2S = {"a": (0, 0, 8), "b": (1, 0, 8)}
+H3 = {"a": (0, 0, 8), "b": (1, 0, 16)}
+H4 = {"a": (0, 0, 16), "b": (2, 0, 16)}
+ETH_LIKE = {"target_mac": (0, 0, 48), "sender_mac": (6, 0, 48), "ethernet_type": (12, 0, 16)}       # 14 bytes
+IP_LIKE = {"ihl": (0, 0, 4), "version": (0, 4, 4), "total_length": (2, 0, 16), "identification": (4, 0, 16),
+           "ttl": (8, 0, 8), "protocol": (9, 0, 8), "checksum": (10, 0, 16), "sender_ip": (12, 0, 32),
+           "target_ip": (16, 0, 32)}                                                                  # 20 bytes
+
+
+def bit_per_byte(nbytes):
+    return [sum(((m >> k) & 1) << (8 * k) for k in range(nbytes)) for m in range(1 << nbytes)]
+
+
+def hvals(fields, H, picks):
+    """Header field-value tuples whose header bytes follow the given bit patterns (bit 0 of each byte)."""
+    names = sorted(fields)
+    out = []
+    for pat in picks:
+        sig = sum(((pat >> k) & 1) << (8 * k) for k in range(H))
+        out.append(tuple((sig >> (8 * fields[k][0] + fields[k][1])) & ((1 << fields[k][2]) - 1) for k in names))
+    return out
+
+
 def mk_packet(kind, *a, **kw):
-    import c16lib as L16
+    """Packet element instances: own constructors (c04lib.pk_*), Lean machines of LitexModel/Packet via our driver."""
     V = c04lib
+    name = kw.pop("name")
     if kind == "arbiter":
         n = a[0]
-        inner = L16.arbiter_inst(kw.pop("name"), n, **kw)
+        inner = V.pk_arbiter(name, n, **kw)
         return V.PortC04Inst(inner, V.ArbiterView(n, inner.alphabet, *PK["k_arb"]))
     if kind == "dispatcher":
         m = a[0]
-        one_hot = kw.get("one_hot", False)
-        inner = L16.dispatcher_inst(kw.pop("name"), m, **kw)
-        nsel = 1 << len(inner.in_sigs[3])
-        return V.PortC04Inst(inner, V.DispatcherView(m, nsel, inner.alphabet, PK["k_disp"]))
+        inner = V.pk_dispatcher(name, m, **kw)
+        k_hs = PK["k_disp"]
+        return V.PortC04Inst(inner, V.DispatcherView(m, inner.nsel, inner.alphabet, k_hs))
     if kind == "packetfifo":
         pd = a[0]
         buffered = kw.get("buffered", False)
-        inner = L16.packetfifo_inst(kw.pop("name"), pd, max_len=pd, **kw)
+        inner = V.pk_packetfifo(name, pd, **kw)
         k_hs, _ = PK["k_fifo_buf"] if buffered else PK["k_fifo"]
-        # a complete packet of <= pd beats is offered pd + 1 (+2 buffered) cycles after its first beat at the latest
+        # a complete packet of <= pd beats is offered pd + 1 (+1 buffered) cycles after its first beat at the latest
         return V.PortC04Inst(inner, V.PacketFifoView(inner.alphabet or [(1, 0, 0, 0, 1), (1, 0, 0, 1, 1)], pd, k_hs,
                                                      pd + (2 if buffered else 1)))
     if kind == "packetizer":
         Bb, H, f, sw = a
-        W = (8 * H) // (8 * Bb)
-        inner = L16.packetizer_inst(kw.pop("name"), Bb, H, f, sw, **kw)
-        nf = len(inner.hdr.table)
-        alpha = inner.alphabet or [(1, 1, l) + tuple(inner.hdr.max_vals()) + (1,) for l in (0, 1)]
-        return V.PortC04Inst(inner, V.SSView(alpha, *PK["k_pk"], last_idx=2))
+        inner = V.pk_packetizer(name, Bb, H, f, sw, **kw)
+        return V.PortC04Inst(inner, V.SSView(inner.coop_alpha, *PK["k_pk"], last_idx=2))
     if kind == "depacketizer":
         Bb, H, f, sw = a
-        W = (8 * H) // (8 * Bb)
-        inner = L16.depacketizer_inst(kw.pop("name"), Bb, H, f, sw, **kw)
-        alpha = inner.alphabet or [(1, 1, l, 1) for l in (0, 1)]
-        return V.PortC04Inst(inner, V.DepackView(alpha, W, PK["k_dpk"][0], W + 1))
+        inner = V.pk_depacketizer(name, Bb, H, f, sw, **kw)
+        return V.PortC04Inst(inner, V.DepackView(inner.coop_alpha, inner.W, PK["k_dpk"][0], inner.W + 1))
     raise ValueError(kind)
 
 
 def packet_jobs(tier):
-    from props import c16
     quick = tier == "quick"
     J = []
     mx = 20000 if quick else 300000
@@ -194,8 +214,11 @@ def packet_jobs(tier):
     T3 = [(0, 0, 0), (1, 0, 1), (0, 1, 1)]
     A(lambda: mk_packet("arbiter", 2, name="Arbiter(2)"))
     A(lambda: mk_packet("arbiter", 3, name="Arbiter(3)", data_values=(0,) if quick else (0, 1)))
+    A(lambda: mk_packet("arbiter", 1, name="Arbiter(1)"))                                # glue: plain connect
+    A(lambda: mk_packet("dispatcher", 1, name="Dispatcher(1)"))                          # glue: plain connect
+    A(lambda: mk_packet("dispatcher", 1, name="Dispatcher(1,one_hot)", one_hot=True))
     A(lambda: mk_packet("dispatcher", 2, name="Dispatcher(2)"))
-    A(lambda: mk_packet("dispatcher", 3, name="Dispatcher(3)"))             # sel = 3 addresses no slave
+    A(lambda: mk_packet("dispatcher", 3, name="Dispatcher(3)"))                          # sel = 3 addresses no slave
     A(lambda: mk_packet("dispatcher", 2, name="Dispatcher(2,one_hot)", one_hot=True))
     A(lambda: mk_packet("dispatcher", 3, name="Dispatcher(3,one_hot)", one_hot=True, data_values=(1,)))
     A(lambda: mk_packet("packetfifo", 2, name="PacketFIFO(2)", tokens=T2 if quick else T3))
@@ -205,32 +228,96 @@ def packet_jobs(tier):
         A(lambda: mk_packet("packetfifo", 3, name="PacketFIFO(3)/T2", tokens=T2))
         A(lambda: mk_packet("packetfifo", 4, name="PacketFIFO(4,param_depth=1)/T2", qd=1, tokens=T2))
         A(lambda: mk_packet("packetfifo", 3, name="PacketFIFO(3,param_depth=1)/T3", qd=1, tokens=T3))
-    for (Bb, H, f, sw, pats) in ((1, 1, c16.H1, False, (0, 1)), (1, 2, c16.H2, True, (1, 2)),
-                                 (2, 2, c16.H2S, False, (1, 2)), (2, 4, c16.H4, True, (1, 14))):
-        dv = c16.bit_per_byte(Bb)[:2] if quick else c16.bit_per_byte(Bb)
-        hv = c16.hvals(f, H, pats)
+        A(lambda: mk_packet("packetfifo", 3, name="PacketFIFO(3,param_depth=1,buffered)/T2", qd=1, buffered=True,
+                            tokens=T2))
+        A(lambda: mk_packet("dispatcher", 4, name="Dispatcher(4)"))
+        A(lambda: mk_packet("arbiter", 4, name="Arbiter(4)", data_values=(0,)))
+    for (Bb, H, f, sw, pats) in ((1, 1, H1, False, (0, 1)), (1, 2, H2, True, (1, 2)), (1, 3, H3, True, (1, 6)),
+                                 (2, 2, H2S, False, (1, 2)), (2, 4, H4, True, (1, 14))):
+        dv = bit_per_byte(Bb)[:2] if quick else bit_per_byte(Bb)
+        hv = hvals(f, H, pats)
         tag = "dw%d/H%d" % (8 * Bb, H)
         A(lambda Bb=Bb, H=H, f=f, sw=sw, dv=dv, hv=hv, tag=tag:
           mk_packet("packetizer", Bb, H, f, sw, name="Packetizer/" + tag, data_values=dv, hdr_values=hv))
         A(lambda Bb=Bb, H=H, f=f, sw=sw, dv=dv, tag=tag:
           mk_packet("depacketizer", Bb, H, f, sw, name="Depacketizer/" + tag, data_values=dv))
-    if not quick:
-        A(lambda: mk_packet("dispatcher", 4, name="Dispatcher(4)"))
-        A(lambda: mk_packet("arbiter", 4, name="Arbiter(4)", data_values=(0,)))
-        A(lambda: mk_packet("packetfifo", 3, name="PacketFIFO(3,param_depth=1,buffered)/T2", qd=1, buffered=True,
-                            tokens=T2))
     B(lambda: mk_packet("arbiter", 3, name="Arbiter(3)/8b", dwid=8, alphabet=False))
+    B(lambda: mk_packet("arbiter", 5, name="Arbiter(5)/64b", dwid=64, alphabet=False))
     B(lambda: mk_packet("dispatcher", 3, name="Dispatcher(3)/8b", dwid=8, alphabet=False))
+    B(lambda: mk_packet("dispatcher", 5, name="Dispatcher(5)/8b", dwid=8, alphabet=False))   # sel 5, 6, 7 address nobody
+    B(lambda: mk_packet("dispatcher", 6, name="Dispatcher(6)/8b", dwid=8, alphabet=False))
     B(lambda: mk_packet("dispatcher", 4, name="Dispatcher(4,one_hot)/8b", one_hot=True, dwid=8, alphabet=False))
+    B(lambda: mk_packet("dispatcher", 5, name="Dispatcher(5,one_hot)/64b", one_hot=True, dwid=64, alphabet=False))
     B(lambda: mk_packet("packetfifo", 8, name="PacketFIFO(8,param_depth=2)/8b", qd=2, dwid=8, pwid=8, alphabet=False))
     B(lambda: mk_packet("packetfifo", 8, name="PacketFIFO(8,buffered)/8b", buffered=True, dwid=8, pwid=8,
                         alphabet=False))
-    B(lambda: mk_packet("packetizer", 2, 14, c16.ETH_LIKE, True, name="Packetizer/eth/dw16/H14", alphabet=False,
-                        garbage="random"))
-    B(lambda: mk_packet("depacketizer", 4, 20, c16.IP_LIKE, True, name="Depacketizer/ip/dw32/H20", alphabet=False,
-                        garbage="random"))
+    B(lambda: mk_packet("packetfifo", 5, name="PacketFIFO(5,param_depth=3)/64b", qd=3, dwid=64, pwid=8, alphabet=False))
+    B(lambda: mk_packet("packetfifo", 6, name="PacketFIFO(6,param_depth=1,buffered)/8b", qd=1, buffered=True, dwid=8,
+                        pwid=8, alphabet=False))
+    B(lambda: mk_packet("packetizer", 2, 14, ETH_LIKE, True, name="Packetizer/eth/dw16/H14", alphabet=False))
+    B(lambda: mk_packet("packetizer", 8, 24, {"a": (0, 0, 64), "b": (8, 0, 128)}, True, name="Packetizer/dw64/H24",
+                        alphabet=False))                                                 # 3 header words of 64 bits
+    B(lambda: mk_packet("depacketizer", 4, 20, IP_LIKE, True, name="Depacketizer/ip/dw32/H20", alphabet=False))
+    B(lambda: mk_packet("depacketizer", 16, 16, {"a": (0, 0, 128)}, True, name="Depacketizer/dw128/H16",
+                        alphabet=False))
     return J
 
+
+def corner_jobs(tier):
+    """Corners named by the quantifier that must stay in the QUICK grid whatever props.c03 does: non-power-of-two
+    ratios / depths / counts (3, 5, 6, 7), payloads wider than 32 bits, less-used options, and instances built
+    through the glue code (`Converter`'s class selection, `SyncFIFO`'s depth dispatch, same-domain
+    `ClockDomainCrossing`)."""
+    from props import c03
+    from streamlib import StreamInst
+    from litex.soc.interconnect import stream
+    quick = tier == "quick"
+    J = []
+    T2 = [(0, 0, 1), (1, 1, 0)]
+    A = lambda mk: J.append(Job("A", lambda: wrap_inst(mk(), "A"), max_states=20000 if quick else 400000,
+                                deadline_s=40 if quick else 400))
+    B = lambda mk: J.append(Job("B", lambda: wrap_inst(mk(), "B"), cycles=2000 if quick else 20000,
+                                runs=1 if quick else 2, watch_every=20))
+    # converter ratios 3, 5, 6, 7: exhaustive on 1-bit sub-words, random on bytes, through every front door
+    for r in (3, 5, 6, 7):
+        A(lambda r=r: c03.mk_down(r, 1, False))
+        A(lambda r=r: c03.mk_unpack(r, 1, 0, r % 2 == 1))
+        if r <= 6:
+            A(lambda r=r: c03.mk_up(r, 1, False))
+        B(lambda r=r: c03.mk_up(r, 8, r % 2 == 0, raw=False))              # stream.Converter picks _UpConverter
+        B(lambda r=r: c03.mk_down(r, 8, r % 2 == 1, raw=False))            # stream.Converter picks _DownConverter
+        B(lambda r=r: c03.mk_pack(r, 8, 4, False))
+        B(lambda r=r: c03.mk_unpack(r, 16, 0, True))
+    B(lambda: c03.mk_stride(True, 3, [8, 3, 5], 6, False))
+    B(lambda: c03.mk_stride(True, 5, [4, 4], 2, True))
+    B(lambda: c03.mk_stride(False, 6, [8, 8], 3, False))
+    B(lambda: c03.mk_stride(False, 7, [3, 5], 0, True))
+    B(lambda: c03.mk_bufferized_up(3, 8, False))
+    B(lambda: c03.mk_bufferized_up(5, 8, True))
+    # payloads wider than 32 bits, non-power-of-two depths
+    L64, L128 = [("data", 64)], [("data", 128)]
+    B(lambda: StreamInst("Buffer(v,r)/64b", stream.Buffer(L64, True, True), "buffer_vr", capacity=2))
+    B(lambda: StreamInst("PipeReady/128b", stream.PipeReady(L128), "pipeready", capacity=1))
+    B(lambda: StreamInst("SyncFIFO(5)/128b", stream.SyncFIFO(L128, 5), "syncfifo 5", capacity=5))
+    B(lambda: StreamInst("SyncFIFO(7,buffered)/64b", stream.SyncFIFO(L64, 7, buffered=True), "syncfifo_buffered 7",
+                         capacity=8))
+    B(lambda: StreamInst("SyncFIFO(6)/8b", stream.SyncFIFO([("data", 8)], 6), "syncfifo 6", capacity=6))
+    B(lambda: c03.mk_delay(64, 5))
+    B(lambda: c03.mk_delay(1, 7))
+    B(lambda: c03.mk_gearbox(5, 3, True))
+    B(lambda: c03.mk_gearbox(6, 7, False))
+    B(lambda: c03.mk_gearbox(40, 64, True))
+    B(lambda: c03.mk_shifter(7))
+    B(lambda: c03.mk_gate(64, True))
+    # glue: same-domain ClockDomainCrossing (plain connect / Buffer), SyncFIFO depth dispatch is in the C03 list
+    A(lambda: StreamInst("ClockDomainCrossing(sys,sys)/1b", stream.ClockDomainCrossing([("data", 1)], "sys", "sys"),
+                         "wire", capacity=0, tokens=T2))
+    A(lambda: StreamInst("ClockDomainCrossing(sys,sys,buffered)/1b",
+                         stream.ClockDomainCrossing([("data", 1)], "sys", "sys", buffered=True), "pipevalid",
+                         capacity=1, tokens=T2))
+    B(lambda: StreamInst("ClockDomainCrossing(sys,sys,buffered)/64b",
+                         stream.ClockDomainCrossing(L64, "sys", "sys", buffered=True), "pipevalid", capacity=1))
+    return J
 
 
 def _is_route(job):
@@ -263,6 +350,7 @@ def jobs(tier):
                  deadline_s=40 if quick else 400))
     J.append(Job("B", lambda: wrap_inst(mk_chain3(8, [("data", 16)]), "B"), cycles=3000 if quick else 30000,
                  runs=1 if quick else 2, watch_every=8 if quick else 16))
+    J += corner_jobs(tier)
     J += packet_jobs(tier)
     J.append(Job("A0", lambda: StatusInst(), max_states=10000))
     J.append(Job("B0", lambda: StatusInst("packet.Status/random"), cycles=4000 if quick else 40000, runs=1))
@@ -341,9 +429,13 @@ def search(ctx, disagreements, proof_info):
     for j in order:
         if time.time() > deadline:
             break
+        try:
+            probe = all_jobs[j].make()
+        except Exception:           # the changed implementation does not even build: nothing to drive
+            continue
         if all_jobs[j].mode not in ("A", "B"):
             import explore
-            inst = all_jobs[j].make()
+            inst = probe
             r = explore.search_failing_input(inst, ctx.rng, [d.trace for d in disagreements if d.job == j] or [[]],
                                              deadline=deadline, tries=60)
             if r:
@@ -351,7 +443,7 @@ def search(ctx, disagreements, proof_info):
                         "letter_format": "port order of the instance's machine (LitexModel/Packet/Num.lean, "
                                          "c03lib Mux/Demux, or valid,last,ready for packet.Status)"}
             continue
-        inst = all_jobs[j].make()
+        inst = probe
         if isinstance(inst, str):
             continue
         r = c04lib.monitor_search(inst, ctx.rng, cycles=3000, runs=3 if j in bad else 1, deadline=deadline)
